@@ -198,6 +198,16 @@ func (x *Exec) callVal(st *State, fv Val, args []Val, c *ssa.CallCommon, pos tok
 }
 
 func (x *Exec) callFunc(st *State, fn *ssa.Function, args []Val, bind []Val, pos token.Pos) []Outcome {
+	// a method value `recv.m` held in a local: the synthetic wrapper calls the method on the captured receiver
+	if fn.Synthetic != "" && strings.HasSuffix(fn.Name(), "$bound") && len(bind) == 1 {
+		if m, ok := fn.Object().(*types.Func); ok {
+			if sig, ok := m.Type().(*types.Signature); ok && sig.Recv() != nil && !types.IsInterface(sig.Recv().Type()) {
+				if target := x.prog.FuncValue(m); target != nil {
+					return x.callFunc(st, target, append([]Val{bind[0]}, args...), nil, pos)
+				}
+			}
+		}
+	}
 	if outs, ok := x.externCall(st, fn, args, pos); ok {
 		return outs
 	}
